@@ -215,6 +215,10 @@ def get_unescaped_str(string: str, qm: str) -> str:
             out.append(f"\\{qm}")
         elif ord(i) > 255 and not 0xD800 <= ord(i) <= 0xDFFF:
             out.append(i)
+        elif ord(i) > 127 and i.isprintable():
+            # printable Latin-1 characters need no escape either (an escape
+            # would put a backslash into f-string fields, see unparse_FormattedValue)
+            out.append(i)
         else:
             out.append(ascii(i)[1:-1])
     return "".join(out)
